@@ -12,11 +12,9 @@ package c11
 //	          i.e. memory follows the data and type in use, not the number of calls ever made.
 
 import (
-	"bytes"
 	"encoding/hex"
 	"encoding/json"
 	"fmt"
-	"os"
 	"runtime"
 	"sync"
 
@@ -272,9 +270,6 @@ func judgeRetention(c RetentionCase) (vs []evid.Violation) {
 	after := liveHeap()
 	growth := after - before
 	lastRetention.unit, lastRetention.growth = unit, growth
-	if os.Getenv("C11_RETENTION_DEBUG") != "" {
-		fmt.Printf("retention: N=%d unit=%d growth=%d\n", c.N, unit, growth)
-	}
 	if bound := retentionUnits*unit + retentionSlack; growth > bound {
 		vs = append(vs, evid.V("memory-follows-use-not-history", "%s of %s: after %d decode calls (%d bytes of data each), each against a freshly parsed definition and with nothing kept by the caller, the live heap is %d bytes larger than before (%d bytes per call); one definition with its decoded tree occupies %d bytes while held, allowed growth %d x that + %d = %d bytes",
 			c.Entry, c.Decl, c.N, len(data), growth, growth/int64(c.N), unit, retentionUnits, retentionSlack, bound))
@@ -360,5 +355,3 @@ func genRetentionCase(rt *rapid.T) (RetentionCase, bool, []string) {
 	}
 	return c, hasTupleOrFixedArrayBelowRoot(b.ty), append([]string{"entry:" + entry}, b.shape...)
 }
-
-var _ = bytes.Equal
